@@ -36,6 +36,10 @@ type Solver struct {
 	timeout  int // ms per query
 	pendingPop bool
 	curTimeout int
+	// script: everything permanent sent since the last Reset (declarations, definitions,
+	// assertions) - replayed into a fresh process by OneShot
+	script   []string
+	NOneShot int // queries the incremental process left unknown and a one-shot run decided
 
 	// statistics (accumulated over the life of the worker)
 	NSat, NUnsat, NUnknown int
@@ -104,6 +108,7 @@ func (s *Solver) Reset() {
 	s.defined = map[int]bool{}
 	s.declared = map[string]bool{}
 	s.ufDecl = map[string]bool{}
+	s.script = s.script[:0]
 	s.send("(reset)")
 	s.send("(set-option :print-success false)")
 	s.curTimeout = s.timeout
@@ -135,7 +140,7 @@ func (s *Solver) define(ts *TermStore, t *Term) {
 	if t.Op == OpVar {
 		if !s.declared[t.Name] {
 			s.declared[t.Name] = true
-			s.send(fmt.Sprintf("(declare-const |%s| %s)", t.Name, sortName(t.W)))
+			s.sendKeep(fmt.Sprintf("(declare-const |%s| %s)", t.Name, sortName(t.W)))
 		}
 		return
 	}
@@ -159,7 +164,7 @@ func (s *Solver) define(ts *TermStore, t *Term) {
 			if a.Op == OpVar {
 				if !s.declared[a.Name] {
 					s.declared[a.Name] = true
-					s.send(fmt.Sprintf("(declare-const |%s| %s)", a.Name, sortName(a.W)))
+					s.sendKeep(fmt.Sprintf("(declare-const |%s| %s)", a.Name, sortName(a.W)))
 				}
 				continue
 			}
@@ -175,17 +180,124 @@ func (s *Solver) define(ts *TermStore, t *Term) {
 		}
 		if cur.Op == OpUF && !s.ufDecl[cur.Name] {
 			s.ufDecl[cur.Name] = true
-			s.send(ts.ufs[cur.Name])
+			s.sendKeep(ts.ufs[cur.Name])
 		}
 		s.defined[cur.id] = true
-		s.send(fmt.Sprintf("(define-fun n%d () %s %s)", cur.id, sortName(cur.W), cur.body()))
+		s.sendKeep(fmt.Sprintf("(define-fun n%d () %s %s)", cur.id, sortName(cur.W), cur.body()))
 	}
 }
 
 // Assert adds t permanently (until Reset) at the current level.
 func (s *Solver) Assert(ts *TermStore, t *Term) {
 	s.define(ts, t)
-	s.send("(assert " + t.ref() + ")")
+	s.sendKeep("(assert " + t.ref() + ")")
+}
+
+func (s *Solver) sendKeep(line string) {
+	s.script = append(s.script, line)
+	s.send(line)
+}
+
+// OneShot decides "current assertions plus extra" in a fresh solver process with a single
+// check-sat and no push/pop.  z3 then runs its tactic pipeline (bit-blasting to SAT), which
+// decides floating-point queries in seconds that the incremental core this worker normally
+// talks to leaves unknown.  On sat the values of vars are returned.
+func (s *Solver) OneShot(ts *TermStore, timeoutMs int, vars []*Term, extra ...*Term) (SatResult, map[string]uint64) {
+	if !s.isZ3() {
+		return Unknown, nil
+	}
+	for _, e := range extra {
+		s.define(ts, e)
+	}
+	t0 := time.Now()
+	defer func() { s.Time += time.Since(t0) }()
+	args := []string{"-in", fmt.Sprintf("-T:%d", (timeoutMs+999)/1000)}
+	cmd := exec.Command(s.cmdline[0], args...)
+	in, err := cmd.StdinPipe()
+	if err != nil {
+		return Unknown, nil
+	}
+	outp, err := cmd.StdoutPipe()
+	if err != nil {
+		return Unknown, nil
+	}
+	if err := cmd.Start(); err != nil {
+		return Unknown, nil
+	}
+	defer func() {
+		in.Close()
+		cmd.Process.Kill()
+		cmd.Wait()
+	}()
+	w := bufio.NewWriterSize(in, 1<<16)
+	for _, l := range s.script {
+		w.WriteString(l)
+		w.WriteByte('\n')
+	}
+	for _, e := range extra {
+		w.WriteString("(assert " + e.ref() + ")\n")
+	}
+	w.WriteString("(check-sat)\n")
+	if err := w.Flush(); err != nil {
+		return Unknown, nil
+	}
+	if s.log != nil {
+		fmt.Fprintf(s.log, "; one-shot query: %d script lines + %d extra\n", len(s.script), len(extra))
+	}
+	rd := bufio.NewReaderSize(outp, 1<<16)
+	res := Unknown
+	for {
+		line, err := rd.ReadString('\n')
+		line = strings.TrimSpace(line)
+		if line == "sat" {
+			res = Sat
+			break
+		}
+		if line == "unsat" {
+			res = Unsat
+			break
+		}
+		if line == "unknown" || line == "timeout" || strings.HasPrefix(line, "(error") || err != nil {
+			return Unknown, nil
+		}
+	}
+	if res == Unsat {
+		s.NUnsat++
+		s.NUnknown--
+		s.NOneShot++
+		return Unsat, nil
+	}
+	// model
+	model := map[string]uint64{}
+	var names []*Term
+	for _, v := range vars {
+		if s.declared[v.Name] {
+			names = append(names, v)
+		}
+	}
+	alt := &Solver{out: rd}
+	const chunk = 200
+	for i := 0; i < len(names); i += chunk {
+		j := i + chunk
+		if j > len(names) {
+			j = len(names)
+		}
+		var sb strings.Builder
+		sb.WriteString("(get-value (")
+		for _, v := range names[i:j] {
+			sb.WriteString(" |" + v.Name + "|")
+		}
+		sb.WriteString("))\n")
+		w.WriteString(sb.String())
+		if err := w.Flush(); err != nil {
+			return Unknown, nil
+		}
+		parseModel(alt.readSexp(), model)
+	}
+	s.NSat++
+	s.NUnknown--
+	s.NOneShot++
+	return Sat, model
 }
 
 func (s *Solver) readLine() (string, error) {
